@@ -1,5 +1,7 @@
 mod chacha;
 mod guts;
+mod hashes;
+mod tf;
 mod null;
 mod simd;
 mod util;
@@ -41,6 +43,8 @@ fn main() {
         "c15" => guts::drive_c15(&mut *out, seed, thorough),
         "simd" => simd::drive_simd(&mut *out, seed, thorough, arg(&args, "--cfg").unwrap_or("?"), arg(&args, "--force").map(|f| f.parse().unwrap()).unwrap_or(0)),
         "c19" => null::drive_c19(&mut *out, seed, thorough),
+        "digests" => hashes::drive_digests(&mut *out, arg(&args, "--family").expect("--family"), seed, thorough, arg(&args, "--cfg").unwrap_or("?")),
+        "tf" => tf::drive_tf(&mut *out, seed, thorough, arg(&args, "--cfg").unwrap_or("?")),
         "stream-end64" => chacha::drive_end64(&mut *out, seed, thorough),
         "stream-rand" => chacha::drive_histories(&mut *out, seed, thorough, true),
         d => {
